@@ -24,6 +24,14 @@ def p_case(rng):
             if rng.random() < 0.2:
                 # the designated tag and its near misses (longer, shorter, other case, decorated)
                 term.data['label'] = rng.choice(["PRELS", "PRELS", "PRELS", "PRELSAT", "PRELS-SB", "PRELS$", "PREL", "prels"])
+    if rng.random() < 0.25:
+        # punctuation is decided by the WORD (the documented inventory): a currency sign tagged `$`, a dash or a number
+        # tagged `$(` are ordinary tokens
+        for term in trees.unordered_terminals(t):
+            if term.data['word'] not in treegen.PUNCT_WORDS and rng.random() < 0.25:
+                term.data['label'] = rng.choice(["$", "$(", "$,", "$."])
+                if rng.random() < 0.5:
+                    term.data['word'] = rng.choice(["$", "\u2013", "5", "US$", "\u201e"])
     tag_uids(t)
     prefix = [("root_attach", {})] if rng.random() < 0.5 else []
     if rng.random() < 0.15:
